@@ -182,12 +182,56 @@ def bounded_write(ctx, rep):
         b = prog.one(H + "Huffman::" + fn)
         ir = IR(b)
         # stores to `len`
+        # the counter: the local returned as Ok(counter) (called `len` today); it is stored to directly, or through a `&mut`
+        # handed to a helper that has been inlined (sa/inline.py)
+        counter = set()
+        for bi in sorted(b.live):
+            for si, st in enumerate(b.blocks[bi]["st"]):
+                if st["k"] == "assign" and st["p"]["l"] == 0 and not st["p"].get("pr") and st["r"]["k"] == "agg" and st["r"].get("variant") == "Ok":
+                    for o in st["r"].get("ops", []):
+                        pl = o.get("cp") or o.get("mv")
+                        if pl is not None and not pl.get("pr"):
+                            counter.add(pl["l"])
+        # Ok(move _t) with _t = copy len: look through the temporaries
+        work = list(counter)
+        while work:
+            l = work.pop()
+            ds = ir.defs.get(l, [])
+            if len(ds) == 1 and ds[0][2] == "assign" and ds[0][3]["r"]["k"] == "use":
+                pl = ds[0][3]["r"]["o"].get("cp") or ds[0][3]["r"]["o"].get("mv")
+                if pl is not None and not pl.get("pr") and pl["l"] not in counter:
+                    counter.add(pl["l"])
+                    work.append(pl["l"])
+        counter = set(l for l in counter if len(ir.defs.get(l, [])) > 1) or counter
+        if not counter:
+            counter = set(l for l in ir.defs if (ir.lname(l) or "") == "len")
+        ptrs = set()
+        for l, ds in ir.defs.items():
+            for (bi, si, kind, node) in ds:
+                if kind == "assign" and node["r"]["k"] == "ref" and node["r"].get("mut") and not node["r"]["p"].get("pr") and node["r"]["p"]["l"] in counter:
+                    ptrs.add(l)
+        grew = True
+        while grew:
+            grew = False
+            for l, ds in ir.defs.items():
+                if l in ptrs:
+                    continue
+                for (bi, si, kind, node) in ds:
+                    if kind == "assign" and node["r"]["k"] == "use":
+                        pl = node["r"]["o"].get("mv") or node["r"]["o"].get("cp")
+                        if pl is not None and not pl.get("pr") and pl["l"] in ptrs:
+                            ptrs.add(l)
+                            grew = True
         lens = []
         for bi in sorted(b.live):
             for si, st in enumerate(b.blocks[bi]["st"]):
-                if st["k"] == "assign" and not st["p"].get("pr") and (ir.lname(st["p"]["l"]) or "") == "len":
+                if st["k"] != "assign":
+                    continue
+                direct = not st["p"].get("pr") and st["p"]["l"] in counter
+                through = st["p"].get("pr") == ["*"] and st["p"]["l"] in ptrs
+                if direct or through:
                     v = ir.rvalue(st["r"], (bi, si))
-                    if v[0] == "bin" and v[1] == "Add":
+                    if (v[0] == "bin" and v[1] == "Add") or (through and "Add" in show(v)):
                         lens.append((bi, si, st.get("ln")))
         rep.floor(rule, len(lens), 1, "len += 1 in " + fn)
         for bi, si, ln in lens:
